@@ -56,6 +56,18 @@ def encodeFormattedN (n : Nat) (kind : WriterKind) (level : Nat) (f : FChunks) :
 def encodeFormatted (kind : WriterKind) (level : Nat) (f : FChunks) : Outcome Unit Bytes :=
   encodeFormattedN bufLen kind level f
 
+/-- the encoder of a pattern with parameters (`f l` = the pattern with `{l}`/`{m}` resolved) -/
+def formattedEnc (n : Nat) (f : Nat → FChunks) : Enc := fun kind l => encodeFormattedN n kind l (f l)
+
+/-- build + one append, for a pattern with parameters -/
+def appendFormatted (s : Setup) (level : Nat) (f : FChunks) : Outcome Unit Streams :=
+  appendEnc ttyOnlyUsesIsatty s (fun kind l => encodeFormattedN bufLen kind l f) level
+
+/-- a plan whose appenders all use the pattern `f` -/
+def runPlanFormatted (g : Global) (items : List PlanItem) (f : Nat → FChunks) (levels : List Nat) :
+    Outcome Unit Streams :=
+  runPlanEnc ttyOnlyUsesIsatty g items (formattedEnc bufLen f) levels
+
 /-- forgetting the parameters: the unformatted pattern of `Model.lean` (a plain group is spliced) -/
 def Chunks.append : Chunks → Chunks → Chunks
   | .nil, b => b
